@@ -70,6 +70,42 @@ def with_directives(prog, rng, density):
     return p, expect
 
 
+def composite_programs(rng, n):
+    """Programs whose control-flow statements write composite state (dict keys, attributes) that may or may not
+    exist before the statement: the class `missing_composite_written_back` and its complement."""
+    out = []
+    for k in range(n):
+        lines = ['def f(a, b, c, l):', '    o = Obj(a)', '    x = a']
+        lines.append('    dd = %s' % rng.choice(['{}', "{'k': 0}", '{0: 5}', "{'k': 1, 'j': 2}"]))
+        if rng.random() < 0.15:
+            lines.append('    if a > 5:')
+            lines.append('        p = Obj(b)')
+            base = 'p'
+        else:
+            base = 'o'
+        nst = rng.randrange(1, 4)
+        for j in range(nst):
+            key = rng.choice(["dd['k']", "dd['j']", 'dd[0]', 'dd[x]', '%s.v' % base, '%s.w' % base, 'l[0]'])
+            val = rng.choice(['x', 'b', 'tr(%d, x)' % (10 * k + j), 'x + 1'])
+            form = rng.randrange(4)
+            if form == 0:
+                lines += ['    if %s:' % rng.choice(['a > 0', 'b > a', 'd()']), '        %s = %s' % (key, val)]
+                if rng.random() < 0.4:
+                    lines += ['    else:', '        x = x + 1']
+            elif form == 1:
+                lines += ['    for i in %s:' % rng.choice(['l', 'range(a % 3)', 'n()']), '        %s = %s' % (key, val), '        x = x + i']
+            elif form == 2:
+                lines += ['    w = 0', '    while w < %d and d():' % rng.randrange(1, 3), '        w += 1', '        %s = %s' % (key, val)]
+            else:
+                lines += ['    if %s:' % rng.choice(['a > 0', 'c']), '        for i in l:', '            %s = i' % key, '            x += i']
+        lines.append('    return x, sorted((str(q), v if isinstance(v, int) else repr(v)) for q, v in dd.items()), o.v')
+        src = '\n'.join(lines) + '\n'
+        inputs = [(1, 2, 3, [1, 2]), (0, 0, 0, [0]), (-1, 5, 0, [3])]
+        out.append(progen.Program(progen.RANDOM_PRELUDE + src, inputs, {'composite', 'if', 'for', 'while'}, 'composite',
+                                  decisions=progen.decision_vectors(random.Random(rng.getrandbits(30)), 3)))
+    return out
+
+
 def expect_of_source(source):
     """Expectation table recomputed from a program text alone (replays / corpus)."""
     cut = source.rindex('\ndef f(') + 1
@@ -230,8 +266,9 @@ def gen_programs(run):
     sk = list(progen.skeleton_programs(max_stmts=4 if quick else 5, max_depth=3, cap=420 if quick else 3000,
                                        rng=random.Random(rng.getrandbits(32)), info=info))
     rnd = list(progen.random_programs(random.Random(rng.getrandbits(32)), 200 if quick else 1400, size=14))
+    comp = composite_programs(random.Random(rng.getrandbits(32)), 60 if quick else 400)
     out = []
-    for p in sk + rnd:
+    for p in sk + rnd + comp:
         density = rng.choice([0.0, 0.5, 0.5, 1.0])
         try:
             q, e = with_directives(p, rng, density)
@@ -251,6 +288,34 @@ def corpus_items():
                 p = progen.Program.from_json(j['program'])
                 out.append((fn, p, expect_of_source(p.source), j))
     return out
+
+
+def lean_replay(run, corp):
+    """The Lean counterexample (C03_get_set_counterexample) evaluated by the driver on the model's output for the corpus
+    witness of `missing_composite_written_back`: some emitted call has a guarded entry missing from the store and
+    set(get σ) σ ≠ σ there; and the same predicate is False on a state tuple without composite entries."""
+    sys.path.insert(0, common.REPO)
+    lines, names = [], []
+    with progen.Workspace() as ws:
+        for fn, p, e, j in corp:
+            mod = ws.load(p)
+            tr = passes.trace_conversion(mod.f, passes.make_options())
+            req = c03_cf.cf_request(tr) if tr.error is None else None
+            if req is not None:
+                lines.append('c03.getset' + req[len('c03.cf'):])
+                names.append((fn, j.get('expect_class')))
+            ws.unload(mod)
+    if not lines:
+        return
+    for (fn, want), ans in zip(names, run.drive(lines)):
+        rows = parse_sexp(ans) if ans.startswith('(') else []
+        hit = [r for r in rows if isinstance(r, list) and len(r) == 3 and r[1] == 'True' and r[2] == 'True']
+        incoherent = [r for r in rows if isinstance(r, list) and len(r) == 3 and r[1] != r[2]]
+        run.evaluations += 1
+        if want == 'missing_composite_written_back':
+            run.oblige('counterexample:lean-replay:' + fn, 'counterexample', bool(hit) and not incoherent,
+                       'model rows (names, missingComposite, store changed by set(get)): %s' % ans[:600])
+        run.cov.setdefault('lean_counterexample_replay', {})[fn] = ans[:400]
 
 
 def absorb(run, results, progs_by_key, stats, corpus_expect=None):
@@ -333,7 +398,21 @@ def check(run, only=None):
         results = run_pool(items, run.driver_ok, chunk=1)
         cs = new_stats()
         cf_dis0, ck_bad0 = absorb(run, results, by_key, cs)
-        run.cov['corpus'] = {'files': [fn for (fn, _, _, _) in corp], 'failing_classes': sorted({f['cls'] or 'None' for f in run.failing})}
+        got_classes = {}
+        for res in results:
+            for f in res['rt_failures']:
+                got_classes.setdefault(res['key'], set()).add(f['cls'])
+        status = {}
+        for fn, p, e, j in corp:
+            want = j.get('expect_class')
+            status[fn] = {'expect_class': want, 'observed_classes': sorted(str(c) for c in got_classes.get(p.key, set()))}
+            # a listed witness that no longer fails means the defect was fixed: model and theorem must then be updated
+            if want is not None and want not in got_classes.get(p.key, set()):
+                run.oblige('corpus:' + fn, 'corpus', False,
+                           'witness of the known finding no longer fails in class %s (fixed? update model, theorem and known_findings)' % want)
+        run.cov['corpus'] = status
+        if run.driver_ok:
+            lean_replay(run, corp)
     else:
         cf_dis0, ck_bad0 = [], []
 
